@@ -570,6 +570,7 @@ fn matrix_cells(rng: &mut Rng, shard: usize, nshards: usize, budget: usize) -> V
     // (label, feature string, program text): single-feature programs, operators x types x boundary operands x context
     let mut cells = Vec::new();
     let mut sampled: Vec<(String, String, String)> = Vec::new();
+    let mut sampled_std: Vec<(String, String, String)> = Vec::new();
     let mut n = 0usize;
     let bounds = |t: Ty| -> Vec<Sv> {
         if t.is_real() {
@@ -697,7 +698,7 @@ fn matrix_cells(rng: &mut Rng, shard: usize, nshards: usize, budget: usize) -> V
         }
     }
     // function parameter / return / FB input / FB output paths per widening pair
-    for t in gen::NUMERIC {
+    for t in gen::NUMERIC.iter().copied().chain(gen::BITS) {
         for s in t.sources() {
             n += 1;
             if n % nshards != shard {
@@ -717,7 +718,7 @@ fn matrix_cells(rng: &mut Rng, shard: usize, nshards: usize, budget: usize) -> V
         }
     }
     // the same write paths with the destination declared through an alias type or a subrange of the target type
-    for t in gen::NUMERIC {
+    for t in gen::NUMERIC.iter().copied().chain(gen::BITS) {
         for s in t.sources() {
             for wrap in ["alias", "subrange"] {
                 if wrap == "subrange" && !t.is_int() {
@@ -758,7 +759,7 @@ fn matrix_cells(rng: &mut Rng, shard: usize, nshards: usize, budget: usize) -> V
         }
     }
     // inherited variables (EXTENDS): written from the derived body, a derived method and an inherited method, per widening pair
-    for t in gen::NUMERIC {
+    for t in gen::NUMERIC.iter().copied().chain(gen::BITS) {
         for s in t.sources() {
             n += 1;
             if n % nshards != shard {
@@ -775,6 +776,106 @@ fn matrix_cells(rng: &mut Rng, shard: usize, nshards: usize, budget: usize) -> V
                     lit = gen::lit_text(s, v)
                 ),
             ));
+        }
+    }
+    // standard functions at their boundaries: conversions (also with an argument of a narrower type, which the checker widens),
+    // shifts / rotations by 0, width-1, width, more; string functions with lengths / positions 0, 1, len, len+1, huge, negative;
+    // numeric functions outside their domain
+    {
+        let mut std_cells: Vec<(String, String)> = Vec::new();
+        let conv: Vec<Ty> = gen::NUMERIC.iter().copied().chain(gen::BITS).collect();
+        for x in &conv {
+            for y in &conv {
+                if x == y || (x.is_real() && y.is_bits()) || (x.is_bits() && y.is_real()) {
+                    continue;
+                }
+                let f = format!("{}_TO_{}", x.name(), y.name());
+                for v in bounds(*x) {
+                    let (init, pre) = init_for("a", *x, v);
+                    std_cells.push((format!("{f} {:?}", v), format!("PROGRAM Main\nVAR\n  a : {} := {init};\n  r : {};\nEND_VAR\n{pre}r := {f}(a);\nEND_PROGRAM\n", x.name(), y.name())));
+                }
+                // argument of a narrower type of the same family
+                for sx in x.sources().into_iter().filter(|sx| sx != x) {
+                    std_cells.push((format!("{f}({})", sx.name()), format!("PROGRAM Main\nVAR\n  a : {} := {};\n  r : {};\nEND_VAR\nr := {f}(a);\nEND_PROGRAM\n", sx.name(), gen::lit_text(sx, if sx.is_real() { Sv::F(2.0) } else { Sv::I(1) }), y.name())));
+                }
+            }
+        }
+        for (t, width) in [("BYTE", 8i64), ("WORD", 16), ("DWORD", 32), ("LWORD", 64)] {
+            for f in ["SHL", "SHR", "ROL", "ROR"] {
+                for nsh in [0i64, 1, width - 1, width, width + 1, 2 * width, 255, 32767, -1] {
+                    for val in ["1", "16#81", "16#7F"] {
+                        std_cells.push((format!("{f} {t} by {nsh}"), format!("PROGRAM Main\nVAR\n  w : {t} := {t}#{val};\n  n : INT := INT#{nsh};\n  r : {t};\nEND_VAR\nr := {f}(w, n);\nEND_PROGRAM\n")));
+                    }
+                }
+            }
+        }
+        let big = ["INT#0", "INT#1", "INT#2", "INT#6", "INT#7", "INT#32767", "INT#-1", "LINT#9223372036854775807", "DINT#2147483647", "USINT#255"];
+        for a in big {
+            for b in ["INT#0", "INT#1", "INT#3", "INT#7", "INT#-1", "LINT#9223372036854775807"] {
+                for (name, call) in [
+                    ("LEFT", format!("t := LEFT(s, {a});")),
+                    ("RIGHT", format!("t := RIGHT(s, {a});")),
+                    ("MID", format!("t := MID(s, {a}, {b});")),
+                    ("INSERT", format!("t := INSERT(s, 'XY', {a});")),
+                    ("DELETE", format!("t := DELETE(s, {a}, {b});")),
+                    ("REPLACE", format!("t := REPLACE(s, 'XY', {a}, {b});")),
+                ] {
+                    if matches!(name, "LEFT" | "RIGHT" | "INSERT") && b != "INT#0" {
+                        continue;
+                    }
+                    std_cells.push((format!("{name} {a} {b}"), format!("PROGRAM Main\nVAR\n  s : STRING := 'abcdef';\n  t : STRING;\n  n : INT;\nEND_VAR\n{call}\nn := LEN(t) + FIND(s, t);\nEND_PROGRAM\n")));
+                }
+            }
+        }
+        for call in [
+            "r := SQRT(LREAL#-1.0);", "r := LN(LREAL#0.0);", "r := LN(LREAL#-1.0);", "r := LOG(LREAL#0.0);", "r := EXP(LREAL#1000.0);", "r := ASIN(LREAL#2.0);", "r := ACOS(LREAL#-2.0);", "r := TAN(LREAL#1.5707963267948966);",
+            "r := EXPT(LREAL#0.0, LREAL#-1.0);", "r := EXPT(LREAL#-8.0, LREAL#0.333);", "i := ABS(imin);", "i := TRUNC(LREAL#1.0e300);", "i := LREAL_TO_DINT(LREAL#1.0e300);", "i := LREAL_TO_DINT(LREAL#-2147483648.5);", "i := REAL_TO_DINT(REAL#3.0e38);",
+            "i := MUX(INT#5, DINT#1, DINT#2);", "i := MUX(INT#-1, DINT#1, DINT#2);", "i := LIMIT(DINT#5, DINT#7, DINT#1);", "i := MIN(imin, DINT#0) + MAX(imin, DINT#0);", "i := SEL(TRUE, DINT#1, imin);", "i := DINT#7 MOD DINT#-1;", "i := imin / DINT#-1;", "i := imin MOD DINT#-1;",
+        ] {
+            std_cells.push((format!("num {call}"), format!("PROGRAM Main\nVAR\n  r : LREAL;\n  i : DINT;\n  imin : DINT := DINT#-2147483647;\nEND_VAR\nimin := imin - DINT#1;\n{call}\nEND_PROGRAM\n")));
+        }
+        // JMP / labels in every block relation the checker accepts, and faults raised while a callee's locals are initialised
+        let mut flow_cells: Vec<(&str, String)> = Vec::new();
+        let prog = |body: &str| format!("PROGRAM Main\nVAR\n  i : INT;\n  n : INT;\n  c : BOOL := TRUE;\nEND_VAR\n{body}\nEND_PROGRAM\n");
+        flow_cells.push(("jmp|same-block-forward", prog("JMP done;\nn := 1;\ndone: n := n + 2;")));
+        flow_cells.push(("jmp|endless-same-block", prog("again: i := (i + 1) MOD 100;\nJMP again;")));
+        flow_cells.push(("jmp|endless-out-of-if", prog("again: i := (i + 1) MOD 100;\nIF c THEN\n  JMP again;\nEND_IF;")));
+        flow_cells.push(("jmp|out-of-if", prog("IF c THEN\n  JMP done;\nEND_IF;\nn := 1;\ndone: n := n + 2;")));
+        flow_cells.push(("jmp|out-of-nested-if", prog("IF c THEN\n  IF n < 100 THEN\n    JMP done;\n  END_IF;\nEND_IF;\nn := 1;\ndone: n := n + 2;")));
+        flow_cells.push(("jmp|out-of-case", prog("CASE i OF\n  0: JMP done;\nELSE\n  n := 5;\nEND_CASE;\nn := 1;\ndone: n := n + 2;")));
+        flow_cells.push(("jmp|out-of-for", prog("FOR i := 0 TO 3 DO\n  IF i = 2 THEN\n    JMP done;\n  END_IF;\nEND_FOR;\nn := 1;\ndone: n := n + 2;")));
+        flow_cells.push(("jmp|out-of-while", prog("WHILE i < 3 DO\n  i := i + 1;\n  JMP done;\nEND_WHILE;\nn := 1;\ndone: n := n + 2;")));
+        flow_cells.push(("jmp|backward-out-of-if", prog("again: i := i + 1;\nIF i < 5 THEN\n  JMP again;\nEND_IF;\ni := 0;")));
+        flow_cells.push(("jmp|into-if", prog("JMP inner;\nIF c THEN\n  n := 1;\n  inner: n := n + 2;\nEND_IF;")));
+        flow_cells.push(("jmp|into-for", prog("JMP inner;\nFOR i := 0 TO 3 DO\n  n := 1;\n  inner: n := n + 2;\nEND_FOR;")));
+        flow_cells.push(("jmp|sibling-branch", prog("IF c THEN\n  JMP other;\nELSE\n  other: n := n + 2;\nEND_IF;")));
+        flow_cells.push(("jmp|in-function", "FUNCTION F : INT\nVAR_INPUT\n  a : INT;\nEND_VAR\nIF a > 0 THEN\n  JMP done;\nEND_IF;\nF := 1;\ndone: F := F + 2;\nEND_FUNCTION\nPROGRAM Main\nVAR\n  n : INT;\nEND_VAR\nn := F(1) + F(0);\nEND_PROGRAM\n".to_string()));
+        flow_cells.push(("jmp|in-fb", "FUNCTION_BLOCK B\nVAR_INPUT\n  a : INT;\nEND_VAR\nVAR_OUTPUT\n  q : INT;\nEND_VAR\nIF a > 0 THEN\n  JMP done;\nEND_IF;\nq := 1;\ndone: q := q + 2;\nEND_FUNCTION_BLOCK\nPROGRAM Main\nVAR\n  b : B;\n  n : INT;\nEND_VAR\nb(a := 1);\nb(a := 0);\nn := b.q;\nEND_PROGRAM\n".to_string()));
+        for (kind, decl, call) in [
+            ("function", "FUNCTION F : INT\nVAR_INPUT\n  a : INT;\n  b : INT;\nEND_VAR\nVAR_TEMP\n  t : INT := a / b;\nEND_VAR\nF := t;\nEND_FUNCTION", "n := F(7, z);"),
+            ("function-var", "FUNCTION F : INT\nVAR_INPUT\n  a : INT;\n  b : INT;\nEND_VAR\nVAR\n  t : INT := a / b;\nEND_VAR\nF := t;\nEND_FUNCTION", "n := F(7, z);"),
+            ("fb", "FUNCTION_BLOCK B\nVAR_INPUT\n  a : INT;\n  b : INT;\nEND_VAR\nVAR_TEMP\n  t : INT := a / b;\nEND_VAR\nVAR_OUTPUT\n  q : INT;\nEND_VAR\nq := t;\nEND_FUNCTION_BLOCK", "fb(a := 7, b := z);\nn := fb.q;"),
+            ("method", "FUNCTION_BLOCK B\nMETHOD M : INT\nVAR_INPUT\n  a : INT;\n  b : INT;\nEND_VAR\nVAR_TEMP\n  t : INT := a / b;\nEND_VAR\nM := t;\nEND_METHOD\nEND_FUNCTION_BLOCK", "n := fb.M(7, z);"),
+            ("overflowing-initialiser", "FUNCTION F : INT\nVAR_INPUT\n  a : INT;\n  b : INT;\nEND_VAR\nVAR_TEMP\n  t : INT := a * b;\nEND_VAR\nF := t;\nEND_FUNCTION", "n := F(32767, z + 2);"),
+        ] {
+            let fbdecl = if decl.contains("FUNCTION_BLOCK") { "  fb : B;\n" } else { "" };
+            let text = format!("{decl}\nPROGRAM Main\nVAR\n{fbdecl}  n : INT;\n  z : INT;\n  k : INT;\nEND_VAR\nk := k + 1;\n{call}\nEND_PROGRAM\n");
+            flow_cells.push((Box::leak(format!("local-initialiser-fault|{kind}").into_boxed_str()), text));
+        }
+        for (label, text) in flow_cells {
+            n += 1;
+            if n % nshards != shard {
+                continue;
+            }
+            sampled_std.push((label.to_string(), format!("matrix|{label}"), text));
+        }
+        for (label, text) in std_cells {
+            n += 1;
+            if n % nshards != shard {
+                continue;
+            }
+            let class = if label.contains("_TO_") { "conversion" } else if (label.starts_with("SH") || label.starts_with("RO")) && label.ends_with("by -1") { "shift-negative-count" } else if label.starts_with("SH") || label.starts_with("RO") { "shift" } else if label.starts_with("num ") { "numeric-function" } else { "string-function" };
+            sampled_std.push((label, format!("matrix|std|{class}"), text));
         }
     }
     // feature-switch cells: the deviations the generator otherwise avoids
@@ -806,6 +907,15 @@ fn matrix_cells(rng: &mut Rng, shard: usize, nshards: usize, budget: usize) -> V
         sampled.truncate(budget);
     }
     cells.extend(sampled);
+    // standard-function cells: everything but the (large) conversion matrix always runs; conversions are sampled in the quick tier
+    let (conv, other): (Vec<_>, Vec<_>) = sampled_std.into_iter().partition(|c| c.1.ends_with("|conversion"));
+    cells.extend(other);
+    let mut conv = conv;
+    if conv.len() > budget / 2 {
+        rng.shuffle(&mut conv);
+        conv.truncate(budget / 2);
+    }
+    cells.extend(conv);
     cells
 }
 
